@@ -86,6 +86,10 @@ fn main() {
         i += 1;
     }
     let id = args[1].as_str();
+    if tier == Tier::Quick {
+        // per-exploration wall cap of the quick tier (reported as a cap, never as a verdict)
+        std::env::set_var("XS_MAX_WALL_S", "300");
+    }
     let code = match id {
         "C01" => {
             let chk = Check::new("C01", PART, tier, "exploration");
